@@ -21,7 +21,12 @@ def opAt (t : PNode) (p : NPath) : Option Str :=
 
 def pushOp (ops : List Str) (o : Str) : List Str := if o = [] then ops else ops ++ [o]
 
-mutual
+/-- first successful search among the entries of a `[]*Node` leaf, in order; `f n i` searches
+    entry `n` at index `i` -/
+def firstFound (f : PNode → Nat → Bool × List Str) : List PNode → Nat → List Str → Bool × List Str
+  | [], _, ops => (false, ops)
+  | n :: rest, i, ops => let r := f n i; if r.1 then r else firstFound f rest (i + 1) ops
+
 /-- Go `searchDownward(origin, lastNode, startNode, target, opsPath)`; `s` = subtree at `start`. -/
 def down (fuel : Nat) (s : PNode) (start last target : NPath) (ops : List Str) : Bool × List Str :=
   match fuel with
@@ -62,33 +67,28 @@ def down (fuel : Nat) (s : PNode) (start last target : NPath) (ops : List Str) :
       match rightRes with
       | some x => x
       | none => (false, ops1)
-  | .pairs _ ns => downEntries fuel ns 0 start target ops
+  | .pairs _ ns => firstFound (fun n i => down fuel n (start ++ [i + 2]) start target ops) ns 0 ops
   | _ => (false, ops)
-def downEntries (fuel : Nat) (ns : List PNode) (i : Nat) (start target : NPath) (ops : List Str) : Bool × List Str :=
-  match fuel with
-  | 0 => (false, ops)
-  | fuel + 1 =>
-  match ns with
-  | [] => (false, ops)
-  | n :: rest =>
-    let r := down fuel n (start ++ [i + 2]) start target ops
-    if r.1 then r else downEntries fuel rest (i + 1) start target ops
-end
 
-/-- Go `searchUpward(origin, lastNode, target, opsPath)`; recursion on the length of `last`. -/
-def up (fuel : Nat) (t : PNode) : (last target : NPath) → List Str → Bool × List Str
+def pushOpt (ops : List Str) : Option Str → List Str
+  | some op => ops ++ [op]
+  | none => ops
+
+/-- Go `searchUpward(origin, lastNode, target, opsPath)`; `rlast` is the path of `lastNode`
+    in reverse (innermost step first), so that the parent is its tail. -/
+def upR (fuel : Nat) (t : PNode) : (rlast : List Nat) → (target : NPath) → List Str → Bool × List Str
   | [], _, ops => (false, ops)
-  | last@(_ :: _), target, ops =>
-    let parent := last.dropLast
+  | c :: rpar, target, ops =>
+    let parent := rpar.reverse
     match sub t parent with
     | none => (false, ops)
     | some s =>
-      let r := down fuel s parent last target ops
+      let r := down fuel s parent (parent ++ [c]) target ops
       if r.1 then r else
-      let ops' := match opAt t parent with | some op => ops ++ [op] | none => ops
-      up fuel t parent target ops'
-termination_by last => last.length
-decreasing_by simp_all [List.length_dropLast]
+      upR fuel t rpar target (pushOpt ops (opAt t parent))
+
+def up (fuel : Nat) (t : PNode) (last target : NPath) (ops : List Str) : Bool × List Str :=
+  upR fuel t last.reverse target ops
 
 def size : PNode → Nat
   | .comb _ _ _ _ _ l r => 1 + size l + size r
